@@ -251,7 +251,7 @@ class FNDiagT: public FNUnaryFunction
         
         // make sure that the off-diagonal elements are not undefined				
         for(size_t i = 0; i < r.size(); ++i)
-          r[i] = string("(") + string("0") + string(")");
+          r[i] = string("(") + string("0.0") + string(")");
         // set the diagonal elements
         r[0] = "(" + a[0] + ")";
         r[4] = "(" + a[1] + ")";
@@ -371,7 +371,7 @@ class FNIdMat: public FNUnaryFunction
         
         // make sure that the off-diagonal elements are not undefined				
         for(size_t i = 0; i < vr.size(); ++i)
-          vr[i] = string("(") + string("0") + string(")");
+          vr[i] = string("(") + string("0.0") + string(")");
         // set the diagonal elements
         vr[0] = vr[4] = vr[8] = "(" + vca.scalarString() + ")";
 //         MSG_DEBUG("FNIdMat::toC", "vr[1] = " << vr[1]);
@@ -501,7 +501,7 @@ class FNStep: public FNUnaryFunction
         vector_string_t va = vca.strings();				
 									
         for (size_t i = 0; i < va.size(); ++i) {				
-          vr[i] = "((" + va[i] + ") > 0 ? 1 : 0)";
+          vr[i] = "((" + va[i] + ") > 0 ? 1.0 : 0.0)";
         }								
 									
         return r;							
@@ -558,7 +558,7 @@ class FNStepVal: public FNUnaryFunction
         vector_string_t va = vca.strings();				
 									
         for (size_t i = 0; i < va.size(); ++i) {				
-          vr[i] = "((" + va[i] + ") > 0 ? (" + va[i] + ") : 0)";
+          vr[i] = "((" + va[i] + ") > 0 ? (" + va[i] + ") : 0.0)";
         }								
 									
         return r;							
@@ -856,8 +856,8 @@ class FNUnitVX: public FNUnaryFunction
         vector_string_t &vr = r.strings();
         
         vr[0] = "(" + vca.scalarString() + ")";
-        vr[1] = "(0)";
-        vr[2] = "(0)";
+        vr[1] = "(0.0)";
+        vr[2] = "(0.0)";
         return r;							
       } 
     }									
@@ -910,8 +910,8 @@ class FNUnitVY: public FNUnaryFunction
         vector_string_t &vr = r.strings();
         
         vr[1] = "(" + vca.scalarString() + ")";
-        vr[2] = "(0)";
-        vr[0] = "(0)";
+        vr[2] = "(0.0)";
+        vr[0] = "(0.0)";
         return r;							
       } 
     }									
@@ -964,8 +964,8 @@ class FNUnitVZ: public FNUnaryFunction
         vector_string_t &vr = r.strings();
         
         vr[2] = "(" + vca.scalarString() + ")";
-        vr[0] = "(0)";
-        vr[1] = "(0)";
+        vr[0] = "(0.0)";
+        vr[1] = "(0.0)";
         return r;							
       } 
     }									
@@ -1018,9 +1018,9 @@ class FNxyMat: public FNUnaryFunction
         vector_string_t& r = vr.strings();
         assert(va.size() == 9);
 									
-        r[0] = "(" + va[0] + ")"; r[1] = "(" + va[1] + ")"; r[2] = "(" + string("0") + ")";
-        r[3] = "(" + va[3] + ")"; r[4] = "(" + va[4] + ")"; r[5] = "(" + string("0") + ")";
-        r[6] = "(" + string("0") + ")"; r[7] = "(" + string("0") + ")"; r[8] = "(" + string("0") + ")";
+        r[0] = "(" + va[0] + ")"; r[1] = "(" + va[1] + ")"; r[2] = "(" + string("0.0") + ")";
+        r[3] = "(" + va[3] + ")"; r[4] = "(" + va[4] + ")"; r[5] = "(" + string("0.0") + ")";
+        r[6] = "(" + string("0.0") + ")"; r[7] = "(" + string("0.0") + ")"; r[8] = "(" + string("0.0") + ")";
                 					
 //         MSG_DEBUG("FNxyMat::toC", "r.size() = " << r.size());
         return vr;							
